@@ -3,12 +3,13 @@
 // Three engines in one binary (see NOTES.md):
 //
 //	(A) history engine  (history.go): explicit-state BFS over Allow/Pass/Fail/time-jump histories
-//	    of the real shedder on the fake clock, three (window, buckets) configurations + a
-//	    load.Disable() lane. The fake clock, the injected CPU answer and load.Disable() are
+//	    of the real shedder on the fake clock, five (window, buckets, threshold family)
+//	    configurations + load.Disable() lanes. The fake clock, the injected CPU answer and load.Disable() are
 //	    process-global, so the search is sharded over worker processes (vlib.RunShards): one
 //	    shard = (configuration, first operation), each running vlib.BFS below its prefix;
-//	(B) schedule engine (sched.go):   vx scenarios, 3 threads Allow→Pass|Fail under the controlled
-//	    scheduler, conservation + "no shed while the CPU is never over";
+//	(B) schedule engine (sched.go):   vx scenarios, 3 threads Allow→Pass|Fail and 2–3 simultaneous
+//	    arrivals under the controlled scheduler, conservation + "no shed while the CPU is never
+//	    over" + "not all shed when nothing was in flight";
 //	(C) wrappers        (wrappers.go): rest SheddingHandler and zrpc UnarySheddingInterceptor
 //	    enumerated sequentially with a counting fake Shedder/Promise.
 package main
@@ -52,15 +53,30 @@ func opTable(c histCfg) []OpDef {
 	}
 	t = append(t,
 		OpDef{K: "burst", N: 3}, OpDef{K: "burst", N: 20}, OpDef{K: "burst", N: 20, Over: true},
-		OpDef{K: "passall"},
+		OpDef{K: "passall"}, OpDef{K: "failall"},
+		// heavy operations: one BFS step reaches what takes dozens of primitive steps (every
+		// primitive step inside is checked): a burst that builds a high in-flight count, and
+		// "churn" = k × (the oldest unfinished request ends by Fail | Pass; a new one is admitted)
+		OpDef{K: "burst", N: 40},
+		OpDef{K: "churn", N: 10}, OpDef{K: "churn", N: 10, P: true},
+		OpDef{K: "churn", N: 60}, OpDef{K: "churn", N: 60, P: true},
 		OpDef{K: "macro", M: "warm-fast"}, OpDef{K: "macro", M: "warm-slow"},
 		// thorough only
-		OpDef{K: "burst", N: 100}, OpDef{K: "failall"},
+		OpDef{K: "burst", N: 100},
 	)
 	return t
 }
 
-func thoroughOnly(o OpDef) bool { return (o.K == "burst" && o.N == 100) || o.K == "failall" }
+func thoroughOnly(o OpDef) bool { return o.K == "burst" && o.N == 100 }
+
+// heavy: operations that stand for many primitive steps; the quick tier offers at most
+// maxHeavyQuick of them per history (the thorough tier does not limit them).
+func heavy(o OpDef) bool { return o.K == "churn" || (o.K == "burst" && o.N >= 40) }
+
+const (
+	maxHeavyQuick    = 2
+	heavyPrefixQuick = 3 // quick: heavy operations only among the first three operations of a history
+)
 
 // outstandingBound: number of unfinished promises if every Allow of the path was admitted.
 func outstandingBound(c histCfg, ops []OpDef) int {
@@ -77,6 +93,7 @@ func outstandingBound(c histCfg, ops []OpDef) int {
 			}
 		case "passall", "failall":
 			n = 0
+		case "churn": // every round resolves one and admits at most one
 		case "macro":
 			n = outstandingBound(c, macroOps(c, o.M))
 		}
@@ -106,6 +123,12 @@ func alphabetFor(c histCfg, tab []OpDef, thorough bool) func(d int, path []Op) [
 		ops := decode(tab, path)
 		ub := outstandingBound(c, ops)
 		lastJump := len(ops) > 0 && ops[len(ops)-1].K == "jump"
+		nHeavy := 0
+		for _, o := range ops {
+			if heavy(o) {
+				nHeavy++
+			}
+		}
 		var out []Op
 		for i, o := range tab {
 			switch {
@@ -117,7 +140,9 @@ func alphabetFor(c histCfg, tab []OpDef, thorough bool) func(d int, path []Op) [
 				continue // quick: gaps are single jumps of the alphabet, sums of jumps only in thorough
 			case (o.K == "pass" || o.K == "fail") && (ub == 0 || (o.New && ub < 2)):
 				continue
-			case (o.K == "passall" || o.K == "failall") && ub == 0:
+			case (o.K == "passall" || o.K == "failall" || o.K == "churn") && ub == 0:
+				continue
+			case heavy(o) && !thorough && (nHeavy >= maxHeavyQuick || d >= heavyPrefixQuick):
 				continue
 			}
 			out = append(out, Op(i))
@@ -148,12 +173,18 @@ func (p histPlan) lane() string {
 	return p.c.Name
 }
 
-func plans(cfg *vlib.Config) []histPlan {
-	depths := []int{6, 6, 6, 4, 4, 4}
-	if cfg.Thorough() {
-		depths = []int{8, 8, 8, 5, 5, 5}
+// lanes: every configuration enabled (two CPU-threshold families, see histCfgs), the first three
+// also after load.Disable().
+func plans(cfg *vlib.Config) []histPlan { return plansFor(cfg.Thorough()) }
+
+func plansFor(thorough bool) []histPlan {
+	nEnabled := len(histCfgs)
+	const nDisabled = 3
+	depths := []int{6, 6, 6, 6, 5, 4, 4, 4}
+	if thorough {
+		depths = []int{8, 8, 8, 8, 8, 5, 5, 5}
 	}
-	if v := os.Getenv("VERIF_C02_DEPTHS"); v != "" { // experiments only: "6,5,5,4,3,3"
+	if v := os.Getenv("VERIF_C02_DEPTHS"); v != "" { // experiments only: "6,5,5,5,5,4,3,3"
 		for i, f := range strings.Split(v, ",") {
 			if i < len(depths) {
 				depths[i], _ = strconv.Atoi(f)
@@ -162,29 +193,50 @@ func plans(cfg *vlib.Config) []histPlan {
 	}
 	var out []histPlan
 	for i, d := range depths {
-		if d > 0 {
-			out = append(out, histPlan{histCfgs[i%3], i >= 3, d})
+		if d <= 0 {
+			continue
+		}
+		if i < nEnabled {
+			out = append(out, histPlan{histCfgs[i], false, d})
+		} else if i-nEnabled < nDisabled {
+			out = append(out, histPlan{histCfgs[i-nEnabled], true, d})
 		}
 	}
 	return out
 }
 
-// shard name: hist|<lane>|<depth>|<first op code>. Quick tier: histories that start with a
+// shard name: hist|<lane>|<depth>|<first op code>[|q]. Quick tier: histories that start with a
 // warm-up macro (the states in which shedding is possible) are searched one level deeper than
-// those that start from the empty shedder.
+// those that start from the empty shedder. The thorough tier first runs the quick tier's plan on
+// the enabled lanes unchanged (suffix |q: quick alphabet restrictions, quick depths, no time box:
+// thorough ⊇ quick whatever the time boxes cut), then its own plan (full alphabet, time-boxed).
 func histShards(cfg *vlib.Config) []string {
 	var names []string
-	for _, p := range plans(cfg) {
-		tab := opTable(p.c)
-		for _, op := range alphabetFor(p.c, tab, cfg.Thorough())(0, nil) {
-			d := p.depth
-			if !cfg.Thorough() && !p.disabled && tab[op].K != "macro" {
-				d--
+	add := func(thorough bool, suffix string) {
+		for _, p := range plansFor(thorough) {
+			if suffix != "" && p.disabled {
+				continue // the thorough disabled lanes (full alphabet, depth 5, complete) contain the quick ones
 			}
-			names = append(names, fmt.Sprintf("hist|%s|%d|%d", p.lane(), d, op))
+			tab := opTable(p.c)
+			for _, op := range alphabetFor(p.c, tab, thorough)(0, nil) {
+				d := p.depth
+				if !thorough && !p.disabled && tab[op].K != "macro" {
+					d--
+				}
+				names = append(names, fmt.Sprintf("hist|%s|%d|%d%s", p.lane(), d, op, suffix))
+			}
 		}
 	}
-	// heaviest shards (deepest) first: better packing on the worker pool
+	if cfg.Thorough() {
+		add(false, "|q")
+		n := len(names)
+		add(true, "")
+		// heaviest shards (deepest) first within each phase: better packing on the worker pool
+		sort.SliceStable(names[n:], func(i, j int) bool { return strings.Split(names[n+i], "|")[2] > strings.Split(names[n+j], "|")[2] })
+		sort.SliceStable(names[:n], func(i, j int) bool { return strings.Split(names[i], "|")[2] > strings.Split(names[j], "|")[2] })
+		return names
+	}
+	add(false, "")
 	sort.SliceStable(names, func(i, j int) bool { return strings.Split(names[i], "|")[2] > strings.Split(names[j], "|")[2] })
 	return names
 }
@@ -198,9 +250,11 @@ func histShard(nShards int) func(name string, r *vlib.Report) {
 	return func(name string, r *vlib.Report) {
 		cfg := r.Cfg()
 		f := strings.Split(name, "|")
-		if len(f) != 4 {
+		if len(f) != 4 && !(len(f) == 5 && f[4] == "q") {
 			vlib.Fatal("bad history shard %q", name)
 		}
+		quickPlan := len(f) == 5 // the quick tier's plan run inside the thorough tier
+		thorough := cfg.Thorough() && !quickPlan
 		lane := f[1]
 		depth, _ := strconv.Atoi(f[2])
 		first, _ := strconv.Atoi(f[3])
@@ -214,9 +268,9 @@ func histShard(nShards int) func(name string, r *vlib.Report) {
 		}
 		debug.SetGCPercent(1000)
 		tab := opTable(c)
-		alpha := alphabetFor(c, tab, cfg.Thorough())
+		alpha := alphabetFor(c, tab, thorough)
 		deadline := cfg.Deadline()
-		if cfg.Thorough() { // time box per shard: the history engine's share of the budget, 16 shards at a time
+		if thorough { // time box per shard: the history engine's share of the budget, 16 shards at a time
 			per := 8 * time.Minute * 16 / time.Duration(nShards) // nShards = shards of the enabled lanes (the disabled ones are small)
 			if per < 20*time.Second {
 				per = 20 * time.Second
@@ -228,6 +282,9 @@ func histShard(nShards int) func(name string, r *vlib.Report) {
 		var last histResult
 		var nontrivial, withShed, withMust, withHot, nsample int
 		pre := "hist/" + lane + "/"
+		if quickPlan {
+			pre = "histq/" + lane + "/"
+		}
 		bfs := &vlib.BFS[Op]{
 			Name:     name,
 			MaxDepth: depth,
@@ -258,7 +315,9 @@ func histShard(nShards int) func(name string, r *vlib.Report) {
 				}
 				if last.active > 0 || disabled {
 					nontrivial++
-					r.Nontrivial(name + "|" + key)
+					if !quickPlan { // the quick plan's states are met again by the thorough plan: counted once
+						r.Nontrivial(name + "|" + key)
+					}
 				}
 				if last.must > 0 {
 					withMust++
@@ -270,7 +329,10 @@ func histShard(nShards int) func(name string, r *vlib.Report) {
 					withShed++
 					if !disabled && nsample < 1 && len(path) >= 3 && first >= 2 && r.WantSample() {
 						nsample++
-						r.Sample(map[string]any{"engine": "history", "config": c.Name, "history": readable(decode(tab, path)), "state": last.info})
+						histWantInfo = true
+						again := runHistory(c, disabled, decode(tab, path), false)
+						histWantInfo = false
+						r.Sample(map[string]any{"engine": "history", "config": c.Name, "history": readable(decode(tab, path)), "state": again.info})
 					}
 				}
 			},
@@ -284,13 +346,15 @@ func histShard(nShards int) func(name string, r *vlib.Report) {
 		r.Count(pre+"states_with_a_mandatory_shed_in_history", withMust)
 		r.Count(pre+"states_with_a_cool_off_shed_in_history", withHot)
 		r.Count(pre+"shards", 1)
-		r.AddStates(out.States - 1)
+		if !quickPlan {
+			r.AddStates(out.States - 1)
+		}
 		r.AddTransitions(out.Transitions)
 		r.AddTraces(out.Transitions)
 		r.Eval(out.Transitions)
 		if !out.Exhaustive {
 			r.Count(pre+"shards_cut", 1)
-			r.NotExhaustive(fmt.Sprintf("history %s first-op %v: %s", lane, tab[first], out.Cap))
+			r.NotExhaustive(fmt.Sprintf("history %s%s first-op %v: %s", lane, strings.Join(f[4:], ""), tab[first], out.Cap))
 		}
 	}
 }
@@ -329,8 +393,8 @@ func histPrepass(cfg *vlib.Config, r *vlib.Report) {
 	}
 }
 
-const rule = "(A) explicit-state BFS per (window,buckets) configuration over histories of Allow(cpu over|under) / Pass|Fail(oldest|newest) / Allow×k / PassAll / time jumps on the real adaptive shedder (fresh shedder + replay per transition; sharded by first operation; a state is distinct by white-box dump ⊕ reference state, counted non-trivial when some Allow in its history was decided with the overload branch active (cpu over or cool-off) and requests in flight; in the load.Disable() lane every state); " +
-	"(B) every interleaving up to the preemption bound of 3 threads Allow→Pass|Fail on a pre-loaded shedder (distinct by scenario + observed admit/shed shape); " +
+const rule = "(A) explicit-state BFS per (window,buckets) configuration (two CPU-threshold families: overload factor pinned to 1 and to 0.1) over histories of Allow(cpu over|under) / Pass|Fail(oldest|newest) / Allow×k / PassAll / FailAll / churn×k (k × oldest ends by Pass|Fail, a new request is admitted) / time jumps on the real adaptive shedder (fresh shedder + replay per transition; sharded by first operation; a state is distinct by white-box dump ⊕ reference state, counted non-trivial when some Allow in its history was decided with the overload branch active (cpu over or cool-off) and requests in flight; in the load.Disable() lane every state); " +
+	"(B) every interleaving up to the preemption bound of 3 threads Allow→Pass|Fail on a pre-loaded shedder, and of 2–3 threads calling Allow at once on a shedder with nothing in flight, the moving average above the capacity estimate and the CPU over (distinct by scenario + observed admit/shed shape); " +
 	"(C) every handler outcome of SheddingHandler (status 100..599, no write, panics) and UnarySheddingInterceptor (nil, errors, every gRPC code, panic) against a counting fake Shedder/Promise (distinct by wrapper + outcome)"
 
 func silence() {
@@ -341,10 +405,10 @@ func silence() {
 
 func main() {
 	cfg := vlib.ParseFlags("C02", "model_checking")
-	if cfg.BudgetS == 0 { // own soft time boxes: quick 110 s, thorough 18 min
-		cfg.BudgetS = 110
+	if cfg.BudgetS == 0 { // own soft time boxes: quick 150 s (≈ 40 s of work on an idle 16-core machine), thorough 20 min
+		cfg.BudgetS = 150
 		if cfg.Thorough() {
-			cfg.BudgetS = 1080
+			cfg.BudgetS = 1200
 		}
 	}
 	r := vlib.NewReport(cfg)
@@ -377,7 +441,7 @@ func main() {
 	hs := histShards(cfg)
 	enabledShards := 0
 	for _, n := range hs {
-		if !strings.HasPrefix(n, "hist|dis:") {
+		if !strings.HasPrefix(n, "hist|dis:") && !strings.HasSuffix(n, "|q") {
 			enabledShards++
 		}
 	}
@@ -385,7 +449,7 @@ func main() {
 		vlib.RunShards(r, nil, histShard(enabledShards)) // worker mode: runs the shard and exits
 	}
 	if cfg.Shard == "" { // parent process: history engine and wrappers first, then the schedule shards
-		r.Assume("the CPU answer is injected per Allow through load.systemOverloadChecker; stat.CpuUsage() (overload factor) is real and bracketed in [0.1,1]; shedders are built WithCpuThreshold(999) so that the factor is 1 for every usage value core/stat can report")
+		r.Assume("the CPU answer is injected per Allow through load.systemOverloadChecker; stat.CpuUsage() (overload factor) is real and bracketed in [0.1,1]; shedders are built WithCpuThreshold(999) so that the factor is 1 for every usage value core/stat can report, or (configurations *-deep) WithCpuThreshold(-9000) so that it is 0.1 for every usage value (usage is in [0,1000]): the CPU reading far above the threshold")
 		r.Assume("capacity estimate with no pass in the window: 1 pass/bucket × 1000 ms (the package's documented default); violations that depend on it carry the class suffix :empty-window")
 		r.Assume("core/syncx/spinlock.go is replaced (overlay only) by a blocking-lock model of the same API: spin-waiting is stutter-equivalent to blocking; with the mechanically rewritten spin loop the bounded schedule search does not terminate (free Yield alternatives)")
 		start := time.Now()
@@ -404,6 +468,22 @@ func main() {
 			}
 			sum["exhaustive_to_depth"] = sum["shards_cut"] == int64(0)
 			r.Scenario("history/"+p.lane(), sum)
+		}
+		if cfg.Thorough() { // phase 1: the quick tier's plan, complete unless the global deadline hit
+			for _, p := range plansFor(false) {
+				if p.disabled {
+					continue
+				}
+				pre := "histq/" + p.lane() + "/"
+				sum := map[string]any{"depth_bound": fmt.Sprintf("%d after a warm-up macro, %d from the empty shedder (the quick tier's alphabet restrictions)", p.depth, p.depth-1)}
+				for _, k := range []string{"states", "transitions", "failures", "shards", "shards_cut", "states_where_overload_branch_decided_with_requests_in_flight", "states_with_a_shed_in_history", "states_with_a_mandatory_shed_in_history", "states_with_a_cool_off_shed_in_history"} {
+					sum[k] = r.Counters[pre+k]
+					delete(r.Counters, pre+k)
+				}
+				sum["exhaustive_to_depth"] = sum["shards_cut"] == int64(0)
+				sum["note"] = "states not added to the totals (the thorough plan meets them again)"
+				r.Scenario("history-quick-plan/"+p.lane(), sum)
+			}
 		}
 		r.SetExtra("history_wall_s", time.Since(start).Seconds())
 		t1 := time.Now()
